@@ -622,37 +622,34 @@ Fixpoint reboot_loop (fuel : nat) (src : isource) (pending : list role) (m : sm)
   match fuel with
   | O => halt
   | S f =>
-      fun e =>
-        match e_stim e with
-        | [] => (None, e)
-        | Fire i :: r =>
-            let e1 := set_stim e r (e_ctl e) in
-            match nth_error pending i with
-            | None => reboot_loop f src pending m e1
-            | Some RReboot =>
-                (ok <- ask_reboot_allowed src ;;
-                 if ok then ret m
-                 else emit (ATimer (WFor REBOOT_INTERVAL_NS)) ;;; reboot_loop f src (remove_nth i pending ++ [RReboot]) m) e1
-            | Some _ =>
-                let p' := remove_nth i pending in
-                if has_ping_roles p' then reboot_loop f src p' m e1
-                else
-                  (m1 <- ping_omaha m ;;
-                   mt <- update_next_update_time m1 ;;
-                   let '(m2, t) := mt in
-                   roles <- make_wait t ;;
-                   reboot_loop f src (p' ++ roles) m2) e1
-            end
-        | Control s :: r =>
-            let id := e_ctl e in
-            let e1 := set_stim e r (id + 1)%N in
-            (emit (AReply id AlreadyRunning) ;;;
-             match s with
-             | OnDemand => ok <- ask_reboot_allowed OnDemand ;;
-                           if ok then ret m else reboot_loop f OnDemand pending m
-             | ScheduledTask => reboot_loop f src pending m
-             end) e1
-        end
+      s <- pop_stim ;;
+      match s with
+      | Fire i =>
+          match nth_error pending i with
+          | None => reboot_loop f src pending m
+          | Some RReboot =>
+              ok <- ask_reboot_allowed src ;;
+              if ok then ret m
+              else emit (ATimer (WFor REBOOT_INTERVAL_NS)) ;;; reboot_loop f src (remove_nth i pending ++ [RReboot]) m
+          | Some _ =>
+              let p' := remove_nth i pending in
+              if has_ping_roles p' then reboot_loop f src p' m
+              else
+                m1 <- ping_omaha m ;;
+                mt <- update_next_update_time m1 ;;
+                let '(m2, t) := mt in
+                roles <- make_wait t ;;
+                reboot_loop f src (p' ++ roles) m2
+          end
+      | Control sc =>
+          id <- next_ctl ;;
+          emit (AReply id AlreadyRunning) ;;;
+          match sc with
+          | OnDemand => ok <- ask_reboot_allowed OnDemand ;;
+                        if ok then ret m else reboot_loop f OnDemand pending m
+          | ScheduledTask => reboot_loop f src pending m
+          end
+      end
   end.
 
 Definition wait_for_reboot (fuel : nat) (src : isource) (m : sm) : M sm :=
